@@ -5,12 +5,15 @@
    C08_multiset_* ... speak about today's source text), and (2) the headline statements re-proved directly on the regenerated
    text.  The scripts do not name the statement order of the generated text beyond what `unfold` exposes; a change of meaning
    (another slice bound, another comparison, a guess moved or dropped, another separator) leaves an open goal.            *)
+(* Blocks: a line `(* @needs u1 u2 *)` starts a block that is compiled only when the translator produced the units u1, u2 (it fails
+   closed PER FUNCTION); `(* @needs *)` = always.  harness/partlib.paths_translator filters the blocks. *)
 From Coq Require Import NArith ZArith Bool Ascii String Arith List Lia.
 From Pq Require Import Base.Bytes Impl.Partition Impl.Paths Impl.PyPaths Dataset.Merge Proofs.PartitionStr Proofs.PartitionProofs Proofs.PathsProofs.
 From PqGen Require Import GenPaths.
 Import ListNotations.
 Local Open Scope nat_scope.
 
+(* @needs analyse *)
 (* ------------------------------------------------------------------------------------------------ analyse_paths *)
 Lemma find_break_first_mismatch : forall (b p : list str) k j,
   py_find_break (fun '(x, y) => negb (str_eqb x y)) (combine b p) k j
@@ -76,6 +79,7 @@ Proof.
   destruct fl as [|f0 fl']; [discriminate|]. cbn [map] in E. injection E as E0 _. subst p0. left. reflexivity.
 Qed.
 
+(* @needs fastrel *)
 (* ------------------------------------------------------------------------------------------------ metadata_from_many, fast path *)
 (* the first-chunk path the footer fast path stores = fast_rel of the merge model (about which C14_fast_slice and
    C14_fast_equals_legacy speak): for base = join of parts and f = join (base parts ++ rest) it is the join of rest *)
@@ -86,6 +90,7 @@ Theorem gen_fast_slice : forall (base rest : list str), rest <> [] -> Forall (fu
   gen_fast_rel (join_with c_slash base) (join_with c_slash (base ++ rest)) = join_with c_slash rest.
 Proof. intros base rest H1 H2. rewrite gen_fast_rel_is_model. apply fast_rel_agrees; assumption. Qed.
 
+(* @needs strip *)
 (* ------------------------------------------------------------------------------------------------ _strip_path_tail *)
 Lemma split_on_no_char : forall c s, has_char c s = false -> split_on c s = [s].
 Proof.
@@ -100,6 +105,7 @@ Proof.
   destruct (has_char c_slash p) eqn:E; [reflexivity|]. rewrite (split_on_no_char _ _ E). reflexivity.
 Qed.
 
+(* @needs cats *)
 (* ------------------------------------------------------------------------------------------------ paths_to_cats *)
 Lemma forallb_ext_l {A} (f g : A -> bool) l : (forall x, f x = g x) -> forallb f l = forallb g l.
 Proof. intros H. induction l as [|x l IH]; cbn; [reflexivity|]. rewrite H, IH. reflexivity. Qed.
@@ -235,6 +241,7 @@ Print Assumptions gen_paths_to_cats_is_model.
 Print Assumptions gen_path_to_cats_is_model.
 Print Assumptions gen_paths_to_cats_composed.
 
+(* @needs booltexts *)
 (* ------------------------------------------------------------------------------------------------ val_from_meta: the bool literals *)
 Lemma mem_str_incl l1 l2 : forallb (fun t => mem_str t l2) l1 = true -> forall x, mem_str x l1 = true -> mem_str x l2 = true.
 Proof.
@@ -259,6 +266,7 @@ Theorem gen_bool_texts_roundtrip : mem_str (s_ "True") gen_bool_true_texts = tru
 Proof. vm_compute. split; reflexivity. Qed.
 Print Assumptions gen_bool_texts_is_model.
 
+(* @needs *)
 Section GenValueProofs.
   Variables F T D : Type.
   Variable show_float : F -> str.
@@ -269,11 +277,10 @@ Section GenValueProofs.
   Variable parse_delta : str -> option D.
   Notation value := (value F T D).
   Notation show := (show F T D show_float show_time_iso show_time_str).
-  Notation gen_path_string := (gen_path_string F T D show_float show_time_iso show_time_str).
-  Notation gen_val_to_num := (gen_val_to_num F T D parse_float parse_time_pd parse_delta).
-  Notation gen_dir_path := (gen_dir_path F T D show_float show_time_iso show_time_str).
   Notation parse_with_meta := (parse_with_meta F T D parse_float parse_time_np parse_time_fmt).
 
+(* @needs pathstring *)
+  Notation gen_path_string := (gen_path_string F T D show_float show_time_iso show_time_str).
   (* ---------------------------------------------------------------------------------------------- path_string *)
   Theorem gen_path_string_is_show : forall o : value, gen_path_string o = show true o.
   Proof.
@@ -297,6 +304,8 @@ Section GenValueProofs.
     exact (roundtrip_bool F T D show_float parse_float show_time_iso show_time_str parse_time_np parse_time_fmt b true).
   Qed.
 
+(* @needs valtonum *)
+  Notation gen_val_to_num := (gen_val_to_num F T D parse_float parse_time_pd parse_delta).
   (* ---------------------------------------------------------------------------------------------- _val_to_num *)
   Theorem gen_val_to_num_is_model : forall x, gen_val_to_num x = parse_guess F T D parse_float parse_time_pd parse_delta x.
   Proof.
@@ -311,6 +320,8 @@ Section GenValueProofs.
   Theorem gen_guess_int : forall z, gen_val_to_num (show_Z z) = VInt z.
   Proof. intros z. rewrite gen_val_to_num_is_model. exact (guess_int F T D parse_float parse_time_pd parse_delta z). Qed.
 
+(* @needs naming pathstring *)
+  Notation gen_dir_path := (gen_dir_path F T D show_float show_time_iso show_time_str).
   (* ---------------------------------------------------------------------------------------------- directory naming *)
   Lemma gen_hive_segments : forall (names : list str) (key : list value),
     map (fun '(name, val) => py_format [[]; s_ "="; []] [name; gen_path_string val]) (combine names key)
@@ -340,18 +351,25 @@ Section GenValueProofs.
     - rewrite gen_hive_segments. reflexivity.
     - rewrite (gen_drill_segments key names) by (apply Hlen; reflexivity). reflexivity.
   Qed.
+(* @needs *)
 End GenValueProofs.
 
+(* @needs analyse *)
 Print Assumptions gen_analyse_paths_is_model.
 Print Assumptions gen_basepath.
 Print Assumptions gen_basepath_string.
+(* @needs strip *)
 Print Assumptions gen_strip_tail_is_model.
+(* @needs pathstring *)
 Print Assumptions gen_path_string_is_show.
 Print Assumptions gen_int_text_roundtrip.
+(* @needs valtonum *)
 Print Assumptions gen_val_to_num_is_model.
 Print Assumptions gen_guess_int.
+(* @needs naming pathstring *)
 Print Assumptions gen_relname_is_model.
 
+(* @needs strip pathstring naming cats *)
 (* ------------------------------------------------------------------------------------------------ end to end, hive, on regenerated text
    Writer: pandas' group-by (model `group_by`, premise) with the file of each group named by the REGENERATED naming statements of
    writer.partition_on_columns; reader: the REGENERATED _strip_path_tail, paths_to_cats and _path_to_cats, then the model of
